@@ -34,6 +34,9 @@ type ParamSpec struct {
 	HasDef  bool   `json:"has_default"`
 	// PathLevel: declared on the path item instead of the operation
 	PathLevel bool `json:"path_level,omitempty"`
+	// Empty (query, with Present): declared with allowEmptyValue and sent as "name=": it is present, so
+	// no default may be written next to it
+	Empty bool `json:"empty,omitempty"`
 }
 
 type Case struct {
@@ -209,6 +212,9 @@ func build(c Case) (*openapi3.T, error) {
 		if p.Explode != "" {
 			pm["explode"] = p.Explode == "true"
 		}
+		if p.Empty {
+			pm["allowEmptyValue"] = true
+		}
 		if p.PathLevel {
 			pathParams = append(pathParams, pm)
 		} else {
@@ -291,6 +297,9 @@ func newRequest(c Case) *http.Request {
 		switch p.In {
 		case "query":
 			s, _ := styleser.Query("form", explode, p.Name, v)
+			if p.Empty {
+				s = p.Name + "="
+			}
 			q = append(q, s)
 		case "header":
 			s, _ := styleser.Header(explode, v)
@@ -598,6 +607,9 @@ func gen(t *rapid.T) Case {
 		}
 		if p.In == "cookie" {
 			p.Explode = "false" // the cookie default explode=true cannot carry arrays (C05 finding)
+		}
+		if p.In == "query" && p.Present && p.Kind != "array" && rapid.IntRange(0, 3).Draw(t, "emptyallowed") == 0 {
+			p.Empty = true
 		}
 		if seen[p.In+p.Name] {
 			continue
